@@ -13,6 +13,10 @@ import (
 // genC11: a few keys, several connections competing for them, disconnects, reconnects, concurrent sends.
 func genC11(seed uint64, tier string, idx int) *Plan {
 	p, g := newPlan("C11", seed, tier)
+	if g.r.chance(30) {
+		p.Svc.KeyMode = "tag" // a key function whose keys are not the phone numbers
+		p.Faults = append(p.Faults, "config.custom_key_func")
+	}
 	nkeys := 2 + g.r.intn(2)
 	type key struct {
 		phone []byte
@@ -102,7 +106,7 @@ func genC11(seed uint64, tier string, idx int) *Plan {
 	ncall := 1 + g.r.intn(6)
 	for k := 0; k < ncall; k++ {
 		ki := g.r.intn(nkeys)
-		keyStr := ref.PhoneDigits(keys[ki].phone)
+		keyStr := p.KeyOfDigits(ref.PhoneDigits(keys[ki].phone))
 		if g.r.chance(10) {
 			keyStr = "unknown-key"
 		}
@@ -202,7 +206,7 @@ func checkC11(r *Result) []Violation {
 	nconn := len(r.Plan.Conns)
 	keyOf := make([]string, nconn)
 	for ci, c := range r.Plan.Conns {
-		keyOf[ci] = ref.PhoneDigits(c.Phone)
+		keyOf[ci] = r.Plan.KeyOfDigits(ref.PhoneDigits(c.Phone))
 	}
 	type connH struct {
 		firstHandled int // step of the delivery that completed the first handled frame (0 none)
